@@ -160,10 +160,10 @@ def kraus_to_choi(kraus_ops: list[Qobj]) -> Qobj:
     """
     len_op = np.prod(kraus_ops[0].shape)
     # If Kraus ops have dims [M, N] in qutip notation (act on [N, N] density
-    # matrix and produce [M, M] d.m.), Choi matrix Hilbert space will
-    # be [[M, N], [M, N]] because Choi Hilbert space
-    # is (output space) x (input space).
-    choi_dims = [kraus_ops[0].dims] * 2
+    # matrix and produce [M, M] d.m.), the Choi matrix built below from the
+    # column-stacked Kraus operators has the input index as its major index,
+    # so its Hilbert space is [[N, M], [N, M]] as for `to_choi`.
+    choi_dims = [kraus_ops[0].dims[::-1]] * 2
     # transform a list of Qobj matrices list[sum_ij k_ij |i><j|]
     # into an array of array vectors sum_ij k_ij |i, j>> = sum_I k_I |I>>
     kraus_vectors = np.asarray([
